@@ -227,6 +227,13 @@ Fixpoint hm_probe_get {V} (fuel : nat) (T : htable V) (h : Z) (k : key) (p : nat
 Definition hm_get {V} (T : htable V) (k : key) : option (option V) :=
   hm_probe_get (length T) T (djb k) k (hm_home T (djb k)).
 
+(* native twin (native/map.c hm_get): hash_DJB32 adds `(uint32_t)str.buf[i]` where buf is `const char *` (signed on amd64), so a
+   byte >= 0x80 is sign-extended; the table itself was filled by the Go code with the unsigned hash *)
+Definition djb_native (k : key) : Z :=
+  fold_left (fun h c => (h * 33 + (if 128 <=? c then c + 4294967040 else c)) mod 4294967296) k 5381.
+Definition hm_get_native {V} (T : htable V) (k : key) : option (option V) :=
+  hm_probe_get (length T) T (djb_native k) k (hm_home T (djb_native k)).
+
 (* plain insertion of a list (caching.HashMap used directly) *)
 Definition hm_build {V} (load : nat) (kvs : list (key * V)) : htable V :=
   fold_left (fun T kv => hm_set T (fst kv) (snd kv)) kvs (hm_new (length kvs * load)).
